@@ -15,6 +15,9 @@ Keys7 == Keys6 \cup {kE}
 BKeys3 == {kA, kAF, kFF}
 Vals2 == {"", "1"}
 Vals1 == {"1"}
+\* batch values: two values of equal length and different content, so that a store that recycles a batch's
+\* buffers after Reset is visible
+BVals3 == {"", "1", "2"}
 
 \* keys looked up in every observation: the written keys plus keys that are never written
 Probe == <<kA, kA0, kAF, kB, kF, kFF, kE, <<B0>>, <<Ba, Ba>>, <<BF, B0>>, <<Bb, B0>>, <<Ba, BF, BF>>>>
